@@ -167,7 +167,9 @@ func callMenu() []callT {
 		}, nil},
 		{"Struct([]*T1)", func() []interface{} { return []interface{}{[]*T1{{F: "", G: 9}, {F: "abcd", G: 2}}} },
 			func(a []interface{}) (string, []string) { return errText(valid.Struct(a[0])), nil },
-			func() (string, bool) { return walk.Struct([]*T1{{F: "", G: 9}, {F: "abcd", G: 2}}, walk.Opts{}).Error(), true }},
+			func() (string, bool) {
+				return walk.Struct([]*T1{{F: "", G: 9}, {F: "abcd", G: 2}}, walk.Opts{}).Error(), true
+			}},
 		// two rule sets registered in one call: the caller's maps stay the caller's
 		{"VStruct.SetRule x2", func() []interface{} {
 			return []interface{}{&T1{F: "abcd", G: 2}, valid.RM{"F": "to=1~2|rm1-F"}, valid.RM{"G": "eq=7|rm2-G"}}
@@ -197,8 +199,12 @@ func callMenu() []callT {
 			return []interface{}{&LongSlices{S: v, I: w}}
 		}, func(a []interface{}) (string, []string) { return errText(valid.Struct(a[0])), nil }, nil},
 		// calls rejected before validation although they carry rules
-		{"StructForFn(typed nil, rm)", func() []interface{} { return []interface{}{(*T1)(nil), valid.RM{"F": "required|leak-F", "G": "eq=77|leak-G"}} },
-			func(a []interface{}) (string, []string) { return errText(valid.StructForFn(a[0], a[1].(valid.RM))), nil }, nil},
+		{"StructForFn(typed nil, rm)", func() []interface{} {
+			return []interface{}{(*T1)(nil), valid.RM{"F": "required|leak-F", "G": "eq=77|leak-G"}}
+		},
+			func(a []interface{}) (string, []string) {
+				return errText(valid.StructForFn(a[0], a[1].(valid.RM))), nil
+			}, nil},
 		{"StructForFns(nil, rm, fns)", func() []interface{} {
 			return []interface{}{nil, valid.RM{"Code": "zz|leak"}, valid.Name2FnMap{"zz": zzFn, "phone": lenientPhone}}
 		}, func(a []interface{}) (string, []string) {
